@@ -29,8 +29,11 @@ echo "== demo without the change"; rundemo "$@"; RC0=$?
 git apply $SRC/patch.diff || { echo "PATCH DOES NOT APPLY"; cd /; git -C /repo worktree remove --force $WT; exit 3; }
 echo "== build"; go build ./... ; RCB=$?
 echo "== demo with the change"; rundemo "$@"; RC1=$?
-echo "== suite"; go test -vet=off -count=1 . ./fast/... ./base/... ./ast2/... ./go/etoken/... ./go/scanner/... ./go/parser/... ./go/typeutil/... ./xreflect/... ./classic/... ./gls/... 2>&1 | grep -v "^ok\|no test files" | head -30
-SUITE=$(go test -vet=off -count=1 . ./fast/... ./base/... ./ast2/... ./go/etoken/... ./go/scanner/... ./go/parser/... ./go/typeutil/... ./classic/... ./gls/... 2>&1 | grep -c "^FAIL")
+echo "== suite (xreflect apart: TestFromReflect6 fails on the unchanged tree too)"
+go test -vet=off -count=1 . ./fast/... ./base/... ./ast2/... ./go/etoken/... ./go/scanner/... ./go/parser/... ./go/typeutil/... ./classic/... ./gls/... > $LOG.suite 2>&1
+go test -vet=off -count=1 ./xreflect/... 2>&1 | grep -- "^--- FAIL" | grep -v TestFromReflect6 >> $LOG.suite
+grep -- "^--- FAIL\|^FAIL\|panic:" $LOG.suite | head
+SUITE=$(grep -c -- "^--- FAIL\|^FAIL\|panic:" $LOG.suite)
 cd /
 git -C /repo worktree remove --force $WT
 echo "RESULT name=$NAME demo_without=$RC0 build=$RCB demo_with=$RC1 suite_fail_lines=$SUITE"
